@@ -24,6 +24,18 @@ def sh(cmd, **kw):
     return subprocess.run(cmd, shell=isinstance(cmd, str), capture_output=True, text=True, **kw)
 
 
+def apply_patch(tree: str, patch: str):
+    """`git apply`, falling back to a 3-way merge and to `patch` with fuzz: the repository may have
+    moved (fix commits) since the seed was written."""
+    ap = sh(f"git -C {tree} apply {patch}")
+    if ap.returncode != 0:
+        ap = sh(f"git -C {tree} apply -3 {patch}")
+    if ap.returncode != 0:
+        sh(f"git -C {tree} checkout -- .")
+        ap = sh(f"cd {tree} && patch -p1 --fuzz=3 --no-backup-if-mismatch < {patch}")
+    return ap
+
+
 def run_demo(demo: str, tree: str) -> int:
     env = dict(os.environ, PYTHONPATH=tree, PATH="/venv/bin:" + os.environ["PATH"])
     env.pop("STEPUP_CORE_VERIF", None)
@@ -51,7 +63,7 @@ def main():
     meta = {"property": pid, "variant": int(n), "repo_head": sh("git -C /repo rev-parse --short HEAD").stdout.strip()}
     try:
         meta["demo_without_patch_rc"] = run_demo(demo, wt)
-        ap = sh(f"git -C {wt} apply {patch}")
+        ap = apply_patch(wt, patch)
         meta["patch_applies"] = ap.returncode == 0
         if ap.returncode != 0:
             print("patch does not apply:", ap.stderr)
@@ -71,7 +83,7 @@ def main():
     shutil.rmtree(wt2, ignore_errors=True)
     assert sh(f"git -C /repo worktree add {wt2} HEAD").returncode == 0
     try:
-        assert sh(f"git -C {wt2} apply {patch}").returncode == 0
+        assert apply_patch(wt2, patch).returncode == 0
         shutil.copytree(f"{VERIF}/lean", f"{wt2}/_lean")
         env = dict(os.environ, VERIF_REPO=wt2, VERIF_LEAN_DIR=f"{wt2}/_lean", VERIF_WORK=f"{wt2}/_work",
                    VERIF_EVIDENCE=f"{wt2}/_evidence")
